@@ -42,6 +42,7 @@ pub fn fault_name(f: &WireFault) -> &'static str {
         WireFault::RawPk { .. } => "raw-pk",
         WireFault::ModelMade => "model-made",
         WireFault::Chain { .. } => "chain-of-elements",
+        WireFault::Synthetic { .. } => "synthetic-structure",
     }
 }
 
@@ -313,6 +314,38 @@ pub fn apply_fault(w: &World, env: usize, fault: &WireFault) -> Mutated {
             }
             _ => m.skipped = true,
         },
+        WireFault::Synthetic { params, cseed, adjust_pk } => {
+            let mut r = Rng::new(*cseed);
+            let mut s = ((params.len() as u32).wrapping_sub(1)).to_be_bytes().to_vec();
+            let codes: Option<Vec<(u32, u32)>> = params.iter().map(|&(wv, hv)| Some((model::ots_code(wv)?, model::lms_code(hv)?))).collect();
+            match codes {
+                Some(codes) if !codes.is_empty() => {
+                    for (i, (&(wv, hv), &(oc, lc))) in params.iter().zip(codes.iter()).enumerate() {
+                        let p_chains = model::ots_params(n, wv).3;
+                        let q = if hv >= 32 { r.next_u64() as u32 } else { (r.next_u64() % (1u64 << hv)) as u32 };
+                        s.extend_from_slice(&q.to_be_bytes());
+                        s.extend_from_slice(&oc.to_be_bytes());
+                        s.extend_from_slice(&r.bytes(n * (1 + p_chains)));
+                        s.extend_from_slice(&lc.to_be_bytes());
+                        s.extend_from_slice(&r.bytes(n * hv as usize));
+                        if i + 1 < params.len() {
+                            s.extend_from_slice(&codes[i + 1].1.to_be_bytes());
+                            s.extend_from_slice(&codes[i + 1].0.to_be_bytes());
+                            s.extend_from_slice(&r.bytes(16 + n));
+                        }
+                    }
+                    m.sig = s;
+                    if *adjust_pk {
+                        let mut pk = (params.len() as u32).to_be_bytes().to_vec();
+                        pk.extend_from_slice(&codes[0].1.to_be_bytes());
+                        pk.extend_from_slice(&codes[0].0.to_be_bytes());
+                        pk.extend_from_slice(&r.bytes(16 + n));
+                        m.pk = pk;
+                    }
+                }
+                _ => m.skipped = true,
+            }
+        }
         WireFault::ModelMade => {
             let k = &w.keys[e.key];
             match k.model.sign(e.counter, &e.msg, LsPolicy::Rfc, model::CConv::Library) {
